@@ -333,6 +333,26 @@ class CallMixin:
                 lst = self.read_field(st, recv.z, ft[0], "emitted", ft[1])
                 th = theory_of(lst.t)
                 self.set_list_content(st, lst, th.App(self.list_content(st, lst), th.Unit(box(args[0]))))
+                # optional log of 'message' events: ghost fields message_data (bytes: UTF-8 of a text argument, a binary
+                # argument as is) and message_is_text, appended for emit("message", x) only
+                fd = self.field_type(recv.t.cls, "message_data")
+                ft2 = self.field_type(recv.t.cls, "message_is_text")
+                is_msg = (isinstance(node, ast.Call) and node.args and isinstance(node.args[0], ast.Constant)
+                          and node.args[0].value == "message")
+                if fd is not None and ft2 is not None and is_msg:
+                    arg = args[1] if len(args) > 1 else None
+                    if arg is not None and isinstance(arg.t, TStr):
+                        payload, is_text = prelude().utf8(arg.z), z3.BoolVal(True)
+                    elif arg is not None and isinstance(arg.t, TBytes):
+                        payload, is_text = arg.z, z3.BoolVal(False)
+                    else:
+                        payload, is_text = prelude().Bytes.Empty, z3.BoolVal(False)
+                    l1 = self.read_field(st, recv.z, fd[0], "message_data", fd[1])
+                    t1 = theory_of(l1.t)
+                    self.set_list_content(st, l1, t1.App(self.list_content(st, l1), t1.Unit(payload)))
+                    l2 = self.read_field(st, recv.z, ft2[0], "message_is_text", ft2[1])
+                    t2 = theory_of(l2.t)
+                    self.set_list_content(st, l2, t2.App(self.list_content(st, l2), t2.Unit(is_text)))
                 self.emit_discipline(recv, st, node)
                 self.note_assumption("emit(): listeners assumed not to re-enter the emitting object")
                 return V(BOOL, z3.Bool(fresh_name("had_listeners")))
